@@ -271,3 +271,219 @@ Proof. intros. unfold remove_station. rewrite las_set_panic by auto. reflexivity
 
 Lemma ring_new_panics : forall a, ~ 0 <= a < 128 -> ring_new a = Panic SiteIndex.
 Proof. intros. unfold ring_new. rewrite las_set_panic by auto. reflexivity. Qed.
+
+(* ------------------------------------------------------------------ rings, rotations *)
+
+Definition nsps_ok (r : ring) : Prop :=
+  r_ns r = next_of (las_ones (r_las r)) (r_ts r) /\ r_ps r = prev_of (las_ones (r_las r)) (r_ts r).
+
+Lemma upd_nsps : forall r sa da, nsps_ok (upd r sa da).
+Proof. intros. unfold nsps_ok, upd, update_next_previous. simpl. auto. Qed.
+
+Lemma with_state_nsps : forall r s, nsps_ok r -> nsps_ok (with_state r s).
+Proof. intros r s H. exact H. Qed.
+
+Lemma is_ring_inv : forall R, is_ring R ->
+  exists r0 t, R = r0 :: t /\ StronglySorted Z.lt R /\ Forall (fun a => 0 <= a <= 125) R.
+Proof.
+  intros R H. unfold is_ring, ringb in H.
+  apply andb_true_iff in H. destruct H as [H H3]. apply andb_true_iff in H. destruct H as [H1 H2].
+  destruct R as [|r0 t]; [discriminate|]. exists r0, t. split; auto. split; [apply sortedb_sorted; auto|].
+  apply Forall_forall. intros a Ha. rewrite forallb_forall in H3. specialize (H3 a Ha).
+  apply andb_true_iff in H3. destruct H3 as [A B]. apply Z.leb_le in A. apply Z.leb_le in B. lia.
+Qed.
+
+Lemma sorted_head_lt : forall a l x, StronglySorted Z.lt (a :: l) -> In x l -> a < x.
+Proof.
+  intros a l x S H. inversion S as [|? ? _ F]; subst. rewrite Forall_forall in F. auto.
+Qed.
+
+Lemma sorted_tail : forall a l, StronglySorted Z.lt (a :: l) -> StronglySorted Z.lt l.
+Proof. intros a l S. inversion S; auto. Qed.
+
+(* the discovery rotation: witnessing a -> l1 -> ... -> ln -> r0 in state Discovery *)
+Lemma chain_discovery : forall l a r0 r,
+  wf r -> r_state r = LasDiscovery -> StronglySorted Z.lt (a :: l) -> 0 <= r0 <= a ->
+  Forall (fun x => x <= 125) (a :: l) ->
+  exists r', run_w r (chain a l r0) = Ok r' /\ wf r' /\ r_state r' = LasVerification /\
+             r_ts r' = r_ts r /\ nsps_ok r' /\
+             forall x, activeb (r_las r') x =
+                       existsb (Z.eqb x) (a :: l) || (activeb (r_las r) x && (r0 <=? x) && (x <? a)).
+Proof.
+  induction l as [|b l IH]; intros a r0 r W St S H0 F.
+  - assert (Ha : a <= 125) by (inversion F; auto).
+    cbn [chain run_w]. rewrite witness_good by (auto; lia). rewrite St.
+    destruct (Z.leb_spec r0 a); try lia. cbn [bind].
+    eexists. split; [reflexivity|].
+    split; [apply with_state_wf, upd_wf; auto|]. split; [reflexivity|]. split; [reflexivity|].
+    split; [apply with_state_nsps, upd_nsps|].
+    intros x. cbn [with_state r_las]. destruct (upd_fields r a r0) as [E _]. rewrite E.
+    rewrite activeb_las_after by (auto; lia). unfold in_gapb. cbn [existsb].
+    destruct (Z.ltb_spec a r0); try lia.
+    destruct (activeb (r_las r) x); zb; simpl; try reflexivity; try lia.
+  - assert (Ha : a <= 125) by (inversion F; auto).
+    assert (Hab : a < b) by (apply (sorted_head_lt a (b :: l)); auto; left; auto).
+    assert (Hb : b <= 125) by (inversion F as [|? ? _ F2]; inversion F2; auto).
+    cbn [chain run_w]. rewrite witness_good by (auto; lia). rewrite St.
+    destruct (Z.leb_spec b a); try lia. cbn [bind].
+    destruct (IH b r0 (upd r a b)) as [r' [E [W' [S' [T' [N' A']]]]]].
+    + apply upd_wf; auto.
+    + destruct (upd_fields r a b) as [_ [Q _]]. rewrite Q. exact St.
+    + apply sorted_tail in S. exact S.
+    + lia.
+    + inversion F; auto.
+    + exists r'. split; auto. split; auto. split; auto.
+      split; [rewrite T'; apply upd_fields|]. split; auto.
+      intros x. rewrite A'. destruct (upd_fields r a b) as [Q _]. rewrite Q.
+      rewrite activeb_las_after by (auto; lia). unfold in_gapb.
+      destruct (Z.ltb_spec a b); try lia.
+      cbn [existsb]. destruct (existsb (Z.eqb x) l); [rewrite !orb_true_r; reflexivity|].
+      rewrite !orb_false_r.
+      destruct (activeb (r_las r) x); zb; simpl; try reflexivity; try lia.
+Qed.
+
+(* every pass of a rotation of R is consistent with R: both ends are members, nobody in between *)
+Lemma chain_between : forall (R : list Z) (r0 : Z) l a,
+  StronglySorted Z.lt (a :: l) -> r0 <= a ->
+  (forall x, In x R -> x <= a \/ In x l) -> (forall x, In x R -> r0 <= x) ->
+  forall sa da, In (sa, da) (chain a l r0) -> forall x, In x R -> ~ strictly_between sa da x.
+Proof.
+  induction l as [|b l IH]; intros a S H0 HA HR sa da HI x Hx; unfold strictly_between.
+  - destruct HI as [E|[]]. injection E as E1 E2; subst sa da.
+    destruct (Z.ltb_spec a r0); try lia.
+    destruct (HA x Hx) as [Q|[]]. specialize (HR x Hx). lia.
+  - assert (Hab : a < b) by (apply (sorted_head_lt a (b :: l)); auto; left; auto).
+    destruct HI as [E|HI].
+    + injection E as E1 E2; subst sa da. destruct (Z.ltb_spec a b); try lia.
+      destruct (HA x Hx) as [Q|[Q|Q]]; try lia.
+      pose proof (sorted_head_lt b l x (sorted_tail _ _ S) Q). lia.
+    + apply (IH b (sorted_tail _ _ S)) with (sa := sa) (da := da) (x := x) in HI; auto; try lia.
+      intros y Hy. destruct (HA y Hy) as [Q|[Q|Q]]; [left; lia|left; lia|right; auto].
+Qed.
+
+Lemma chain_ends : forall l a r0 sa da, In (sa, da) (chain a l r0) ->
+  In sa (a :: l) /\ (In da l \/ da = r0).
+Proof.
+  induction l as [|b l IH]; intros a r0 sa da H.
+  - destruct H as [E|[]]. inversion E; subst. split; [left|right]; auto.
+  - destruct H as [E|H].
+    + inversion E; subst. split; [left; auto|left; left; auto].
+    + apply IH in H. destruct H as [H1 H2]. split; [right; auto|].
+      destruct H2; [left; right; auto|right; auto].
+Qed.
+
+Lemma rotation_pass : forall R sa da, is_ring R -> In (sa, da) (rotation R) ->
+  In sa R /\ In da R /\ forall x, In x R -> ~ strictly_between sa da x.
+Proof.
+  intros R sa da HR HI. destruct (is_ring_inv R HR) as [r0 [t [E [S F]]]]. subst R.
+  cbn [rotation] in HI. pose proof (chain_ends _ _ _ _ _ HI) as [E1 E2].
+  split; auto. split; [destruct E2; [right; auto|left; auto]|].
+  apply (chain_between (r0 :: t) r0 t r0) with (sa := sa) (da := da); auto; try lia.
+  - intros x [Q|Q]; [left; lia|right; auto].
+  - intros x [Q|Q]; [lia|]. pose proof (sorted_head_lt r0 t x S Q). lia.
+Qed.
+
+Lemma rotation_in_range : forall R sa da, is_ring R -> In (sa, da) (rotation R) ->
+  0 <= sa <= 125 /\ 0 <= da <= 125.
+Proof.
+  intros R sa da HR HI. destruct (rotation_pass R sa da HR HI) as [A [B _]].
+  destruct (is_ring_inv R HR) as [r0 [t [E [S F]]]]. rewrite Forall_forall in F. split; apply F; auto.
+Qed.
+
+Lemma verifies_of_ring : forall las R sa da, is_ring R ->
+  (forall x, active las x <-> In x R) -> In (sa, da) (rotation R) -> verifies las sa da.
+Proof.
+  intros las R sa da HR HA HI. destruct (rotation_pass R sa da HR HI) as [A [B C]].
+  split; [apply HA; auto|]. split; [apply HA; auto|]. intros x Hx. apply C. apply HA. exact Hx.
+Qed.
+
+(* the verification rotation: every pass verifies, the wrap-around declares the LAS valid *)
+Lemma chain_verification : forall l a r0 r,
+  wf r -> r_state r = LasVerification -> StronglySorted Z.lt (a :: l) -> 0 <= r0 <= a ->
+  Forall (fun x => x <= 125) (a :: l) ->
+  (forall sa da, In (sa, da) (chain a l r0) -> verifies (r_las r) sa da) ->
+  run_w r (chain a l r0) = Ok (with_state r LasValid).
+Proof.
+  induction l as [|b l IH]; intros a r0 r W St S H0 F V.
+  - assert (Ha : a <= 125) by (inversion F; auto).
+    cbn [chain run_w]. rewrite witness_good by (auto; lia). rewrite St.
+    rewrite verify_las_true by (auto; try lia; apply V; left; auto).
+    destruct (Z.leb_spec r0 a); try lia. reflexivity.
+  - assert (Ha : a <= 125) by (inversion F; auto).
+    assert (Hab : a < b) by (apply (sorted_head_lt a (b :: l)); auto; left; auto).
+    assert (Hb : b <= 125) by (inversion F as [|? ? _ F2]; inversion F2; auto).
+    cbn [chain run_w]. rewrite witness_good by (auto; lia). rewrite St.
+    rewrite verify_las_true by (auto; try lia; apply V; left; auto).
+    destruct (Z.leb_spec b a); try lia. cbn [bind].
+    apply IH; auto; try lia.
+    + apply sorted_tail in S; auto.
+    + inversion F; auto.
+    + intros sa da HI. apply V. right. exact HI.
+Qed.
+
+Lemma run_w_app : forall p1 p2 r, run_w r (p1 ++ p2) = (let* r' := run_w r p1 in run_w r' p2).
+Proof.
+  induction p1 as [|[sa da] t IH]; intros p2 r; simpl; auto.
+  destruct (witness r sa da); simpl; auto.
+Qed.
+
+Lemma run_w_uninit_ignored : forall pre r, r_state r = LasUninitialized ->
+  Forall (fun p => is_wrapb p = false) pre -> run_w r pre = Ok r.
+Proof.
+  induction pre as [|[sa da] t IH]; intros r St F; simpl; auto.
+  inversion F as [|? ? F1 F2]; subst. unfold is_wrapb in F1.
+  assert (E : witness r sa da = Ok r).
+  { unfold witness. rewrite St. destruct (Z.ltb_spec 125 sa); auto. destruct (Z.ltb_spec 125 da); auto.
+    destruct (Z.leb_spec da sa); auto. exfalso. zb; try discriminate; lia. }
+  rewrite E. simpl. apply IH; auto.
+Qed.
+
+Lemma witness_uninit_wrap : forall r sa da, r_state r = LasUninitialized -> is_wrapb (sa, da) = true ->
+  witness r sa da = Ok (with_state r LasDiscovery).
+Proof.
+  intros r sa da St H. unfold is_wrapb in H. unfold witness. rewrite St.
+  zb; try discriminate; try lia; reflexivity.
+Qed.
+
+(* from Discovery: two rotations of R *)
+Lemma two_rotations : forall R r, is_ring R -> wf r -> r_state r = LasDiscovery ->
+  exists r', run_w r (rotation R ++ rotation R) = Ok r' /\ wf r' /\ r_state r' = LasValid /\
+             r_ts r' = r_ts r /\ nsps_ok r' /\ las_ones (r_las r') = R.
+Proof.
+  intros R r HR W St. destruct (is_ring_inv R HR) as [r0 [t [E [S F]]]].
+  assert (F' : Forall (fun x => x <= 125) R) by (eapply Forall_impl; [|exact F]; simpl; intros; lia).
+  assert (H0 : 0 <= r0) by (subst R; inversion F; lia).
+  rewrite run_w_app. subst R. cbn [rotation].
+  destruct (chain_discovery t r0 r0 r W St S) as [r1 [E1 [W1 [S1 [T1 [N1 A1]]]]]]; auto; try lia.
+  rewrite E1. cbn [bind].
+  assert (M : forall x, active (r_las r1) x <-> In x (r0 :: t)).
+  { intros x. unfold active. rewrite A1. rewrite <- existsb_eqb_In.
+    destruct (existsb (Z.eqb x) (r0 :: t)); simpl; [tauto|].
+    destruct (activeb (r_las r) x); zb; simpl; try tauto; try lia. }
+  rewrite chain_verification; auto; try lia.
+  - eexists. split; [reflexivity|]. split; [exact W1|]. split; [reflexivity|].
+    split; [exact T1|]. split; [exact N1|].
+    cbn [with_state r_las]. apply sorted_ext; auto; [apply las_ones_sorted|].
+    intros x. rewrite In_las_ones. apply M.
+  - intros sa da HI. apply (verifies_of_ring _ (r0 :: t)); auto.
+Qed.
+
+Lemma las_discovery : forall (R : list Z) (r : ring) (pre : list (Z * Z)) (d : Z * Z),
+  is_ring R -> length (r_las r) = 128%nat -> r_state r = LasUninitialized ->
+  Forall (fun p => is_wrapb p = false) pre -> is_wrapb d = true ->
+  exists r', run_w r (pre ++ d :: rotation R ++ rotation R) = Ok r' /\
+             r_state r' = LasValid /\ ready_for_ring r' = true /\
+             las_ones (r_las r') = R /\ r_ts r' = r_ts r /\
+             cyc_next R (r_ts r) (r_ns r') /\ cyc_prev R (r_ts r) (r_ps r') /\
+             length (r_las r') = 128%nat.
+Proof.
+  intros R r pre [sa da] HR W St F D.
+  rewrite run_w_app, run_w_uninit_ignored by auto. cbn [bind run_w].
+  rewrite witness_uninit_wrap by auto. cbn [bind].
+  destruct (two_rotations R (with_state r LasDiscovery) HR) as [r' [E [W' [S' [T' [[N1 N2] L']]]]]]; auto.
+  exists r'. split; auto. split; auto. split; [unfold ready_for_ring; rewrite S'; reflexivity|].
+  split; auto. split; auto.
+  cbn [with_state r_ts] in T'. rewrite N1, N2, L', T'.
+  destruct (is_ring_inv R HR) as [_ [_ [_ [S _]]]].
+  split; [apply next_of_spec; auto|]. split; [apply prev_of_spec; auto|]. exact W'.
+Qed.
